@@ -93,7 +93,7 @@ def run(sc, workdir):
     pars["scale"] = rng.choice([1.0, 0.5, 2.0])
     pars["background"] = rng.choice([0.0, 0.25])
     # dispersity on P parameters
-    pd_names = sorted(p_info.parameters.pd_1d if dim == "1d" else
+    pd_names = sorted([p.name for p in p_info.parameters.call_parameters if p.polydisperse and p.type not in ("orientation", "magnetic")] if dim == "1d" else
                       [p.name for p in p_info.parameters.call_parameters if p.polydisperse and p.type != "orientation"])
     rng.shuffle(pd_names)
     for name in pd_names[:rng.choice([0, 1, 2])]:
